@@ -250,6 +250,7 @@ func runC02(p *Prog, r *Report, tier string) {
 	lengthAccounting(p, r, "R-RFC.record-layout")
 	// message assembly
 	checkMsgAssembly(p, r)
+	checkTemplateElementsEmpty(p, r, "R-RFC.template-empty")
 	// UpdateLenInHeader on every path before the send
 	if ss := p.Fn("(*pkg/exporter.ExportingProcess).SendSet"); ss != nil {
 		var upd ssa.Instruction
